@@ -309,5 +309,10 @@ class P8PNGFormatter(BaseFormatter):
             attrs['y_pixels_per_unit'] = physical.y
             attrs['unit_is_meter'] = physical.unit_is_meter
 
+        if attrs.get('alpha') or not attrs.get('palette'):
+            # (A truecolour image may carry a suggested palette, which
+            # png.Writer would take for a request for a palette image.)
+            attrs.pop('palette', None)
+
         wr = png.Writer(width, height, **attrs)
         wr.write(outstr, new_rows)
